@@ -99,6 +99,8 @@ where
         &scn.script,
         tmo,
     );
+    // the validity-callback trace of the planner run itself (the oracles below call the predicates again)
+    let trace_snapshot = scn.trace.as_ref().map(|t| *t.lock().unwrap());
     let mut findings = oracle::check_all(&scn, &outs);
     if let Some(tk) = &twin_keys {
         let mut panicked = false;
@@ -200,7 +202,8 @@ where
         }
     }
     // very large runs (real-clock scenarios that ran long) are compared Python-vs-Rust only
-    let too_big = lg.keys.len() > 1500 || lg.interp.len() > 20000;
+    let cap: usize = std::env::var("OXH_MODEL_CAP").ok().and_then(|s| s.parse().ok()).unwrap_or(1500);
+    let too_big = lg.keys.len() > cap || lg.interp.len() > cap * 14;
     let coq = if too_big { "0".to_string() } else { coq_case(&scn.params, &scn.script, &starts, &lg, &pv, &outs).replace('\n', " ") };
     let max_nodes = outs
         .iter()
@@ -240,19 +243,16 @@ where
         ("ticks", J::Arr(outs.iter().map(|o| J::Int(o.ticks as i128)).collect())),
         ("wall_ms", J::Arr(outs.iter().map(|o| J::Num(o.wall_ns as f64 / 1e6)).collect())),
         ("final_snapshot", outs.last().map(|o| oracle::snap_json(&o.snap)).unwrap_or(J::Null)),
-        ("py_mirror", match &scn.trace {
-            Some(t) => {
-                let t = t.lock().unwrap();
-                J::obj(vec![
-                    ("valid_trace_hash", J::Str(format!("{:016x}", t.0))),
-                    ("valid_calls", J::Int(t.1 as i128)),
-                    ("paths", J::Arr(outs.iter().map(|o| match &o.path {
-                        Some(p) => J::Arr(p.iter().map(|s| J::Arr(s.key().iter().skip(1).filter(|w| (*w >> 60) < 0xA || (*w >> 60) > 0xE || true).map(|w| J::Str(format!("{w:016x}"))).collect())).collect()),
-                        None => J::Null,
-                    }).collect())),
-                ])
-            }
-            None => J::Null,
+        ("py_mirror", match (&trace_snapshot, &scn.flat) {
+            (Some(t), Some(flat)) => J::obj(vec![
+                ("valid_trace_hash", J::Str(format!("{:016x}", t.0))),
+                ("valid_calls", J::Int(t.1 as i128)),
+                ("paths", J::Arr(outs.iter().map(|o| match &o.path {
+                    Some(p) => J::Arr(p.iter().map(|s| J::Arr(flat(s).iter().map(|x| J::Str(format!("{:016x}", x.to_bits()))).collect())).collect()),
+                    None => J::Null,
+                }).collect())),
+            ]),
+            _ => J::Null,
         }),
         ("max_nodes", J::Int(max_nodes as i128)),
         ("rejected_states", J::Int(n_rejected as i128)),
